@@ -64,6 +64,8 @@ fn main() {
                 .map(|l| {
                     if let Some(r) = l.strip_prefix("1>") {
                         ClientOp::Line { session: 1, src: r.to_string() }
+                    } else if let Some(r) = l.strip_prefix("runs>") {
+                        ClientOp::Run { src: r.to_string(), shake: true, json: true, wait: true }
                     } else if let Some(r) = l.strip_prefix("run>") {
                         ClientOp::Run { src: r.to_string(), shake: false, json: false, wait: true }
                     } else {
